@@ -64,11 +64,13 @@ def cases(tier, seed):
                 for qs in ('mixed', 'sat'):
                     out.append(('LSML/%s/%s/%s/%s' % (dsn, pr, wk, qs), ('lsml', dsn, pr, wk, qs, b['K'], seed)))
             out.append(('LSML_Supervised/%s/%s' % (dsn, pr), ('sup', dsn, pr, b['K'], seed)))
+    # many features in units of ~60 with the prior that follows them: |log det M| is beyond the range of exp()
+    out.append(('LSML/100_features/covariance', ('highdim', 'H100', 'covariance', 'none', 'mixed', 0, seed)))
     return out
 
 
 def cost(spec):
-    return 3 if spec[2] != 'identity' else 2
+    return 30 if spec[0] == "highdim" else (3 if spec[2] != "identity" else 2)
 
 
 def judge(site, M, M0, M0inv, vab, vcd, wn, tol, n_iter, max_iter, f_prior, tr, viol):
@@ -94,6 +96,43 @@ def run_case(spec):
     viol, sigs = [], set()
     evals = states = trans = 0
     head = 0.0
+    if spec[0] == 'highdim':
+        rs = np.random.RandomState(12100)
+        d, n = 100, 420
+        X = np.round(rs.randn(n, d) * 60 * 4) / 4
+        I = rs.randint(n, size=(160, 4))
+        I = I[(I[:, 0] != I[:, 1]) & (I[:, 2] != I[:, 3])]
+        Q = X[I]
+        M0, M0inv = priors.prior_matrix('covariance', Q, d, seed=1)
+        vab, vcd = Q[:, 0] - Q[:, 1], Q[:, 2] - Q[:, 3]
+        # orient every constraint so that it holds with a clear margin under the prior, then violate every third one
+        dab = np.einsum('ij,jk,ik->i', vab, M0, vab)
+        dcd = np.einsum('ij,jk,ik->i', vcd, M0, vcd)
+        swap = dab > dcd
+        Q[swap] = Q[swap][:, [2, 3, 0, 1]]
+        Q[::3] = Q[::3][:, [2, 3, 0, 1]]
+        vab, vcd = Q[:, 0] - Q[:, 1], Q[:, 2] - Q[:, 3]
+        wn = np.ones(len(Q)) / len(Q)
+        f_prior = lsml_ref.objective(M0, M0inv, vab, vcd, wn)
+        site, tr = 'LSML.fit', ['covariance', '100_features', 'logdet=%.0f' % np.linalg.slogdet(M0)[1]]
+        for mi, tol in ((1, 1e-2), (3, 1e-2), (3000, 1e-2)):
+            est = ml.LSML(prior='covariance', tol=tol, max_iter=mi)
+            try:
+                est.fit(Q.copy())
+            except Exception as e:
+                viol.append(V(site, 'raises', 'fit raised %s: %s' % (type(e).__name__, str(e)[:120]), tr))
+                break
+            evals += 1
+            states += 1
+            trans += 1
+            r = judge(site, est.get_mahalanobis_matrix(), M0, M0inv, vab, vcd, wn, tol, est.n_iter_, mi, f_prior, tr + ['max_iter=%d' % mi], viol)
+            if r is None:
+                break
+            if r[1] is not None:
+                head = max(head, r[1] / (1.001 * tol))
+            sigs.add(('highdim', mi, est.n_iter_))
+        return dict(evals=evals, sigs=sigs, viol=viol, states=states, transitions=trans, headroom={'gradient_norm_over_tol': head},
+                    sample={'learner': 'LSML', 'features': d, 'points': n, 'quadruplets': len(Q), 'prior': 'covariance', 'budgets': [1, 3, 3000]})
     if spec[0] == 'lsml':
         _, dsn, pr, wk, qs, K, seed = spec
         ds = data.dataset('R', seed) if dsn == 'R' else data.dataset(dsn)
